@@ -86,8 +86,9 @@ type gwParent struct {
 
 type gwBackendRef struct {
 	Name   string
-	Port   int // 0 = no port
-	Weight int // -1 = unset
+	NS     string // backendRef.namespace, "" = unset
+	Port   int    // 0 = no port
+	Weight int    // -1 = unset
 }
 
 type gwRule struct {
@@ -124,6 +125,10 @@ func mkBackendRefs(bs []gwBackendRef) []gatewayv1.BackendRef {
 	var out []gatewayv1.BackendRef
 	for _, b := range bs {
 		br := gatewayv1.BackendRef{BackendObjectReference: gatewayv1.BackendObjectReference{Name: gatewayv1.ObjectName(b.Name)}}
+		if b.NS != "" {
+			ns := gatewayv1.Namespace(b.NS)
+			br.Namespace = &ns
+		}
 		if b.Port > 0 {
 			p := gatewayv1.PortNumber(b.Port)
 			br.Port = &p
@@ -297,6 +302,15 @@ func (g *gwGen) backends(ns string) []gwBackendRef {
 			b.Weight = 0
 		case 1:
 			b.Weight = 1 + g.pick(3)
+		}
+		if g.chance(1, 6) {
+			// a reference into another namespace (no ReferenceGrant exists): a service name that only the
+			// other namespace has, so "not resolved" and "resolved in the namespace of the route" coincide
+			if ns == "b" {
+				b.Name, b.NS = "s2", "a"
+			} else {
+				b.Name, b.NS = "s3", "b"
+			}
 		}
 		out = append(out, b)
 	}
@@ -497,6 +511,11 @@ func (r *Run) gwResolveBackend(ns string, refs []gatewayv1.BackendRef) []gwTarge
 	var out []gwTarget
 	for _, b := range refs {
 		if b.Port == nil {
+			continue
+		}
+		if b.Namespace != nil && string(*b.Namespace) != ns {
+			// a route never reaches the services of another namespace (no ReferenceGrant support)
+			r.probe("c10_foreign_backendref")
 			continue
 		}
 		if _, sp := r.findServicePort(ns, string(b.Name), fmt.Sprint(*b.Port)); sp == nil {
